@@ -167,10 +167,10 @@ theorem req_pkt_nobody (cfg : Cfg) {m u v : Bytes} {url : Url} (H : HDict)
     (hte : H.any isTEChunked = false) (hcl : ∀ e ∈ H, isCL e = true → pyInt 10 e.2 = some 0) :
     ∃ r, parse cfg (init .request) (m ++ SP :: (u ++ SP :: v) ++ CRLF ++ (renderHdrs H ++ CRLF ++ [])) = .ok r ∧
       ReqResult r m v url H none false := by
-  obtain ⟨-, hmsp, hmcr⟩ := plainTok_spec hm
+  obtain ⟨hmne, hmsp, hmcr⟩ := plainTok_spec hm
   obtain ⟨-, husp, hucr⟩ := plainTok_spec hu
   obtain ⟨-, -, hvcr⟩ := plainTok_spec hv
-  have hparse := parse_request_pkt cfg H [] hmsp husp (line3_noCRLF hmcr hucr hvcr) hurl hH _ rfl
+  have hparse := parse_request_pkt cfg H [] hmne hmsp husp (line3_noCRLF hmcr hucr hvcr) hurl hH _ rfl
   obtain ⟨r, h1, h2, h3, h4, h5, h6, h7⟩ := finish_nobody cfg .request _ _ [] _ hparse
     (freshLine_req cfg _ m v url) hte hcl (.inl rfl)
   exact ⟨r, h1, reqResult_of h2 h3 h4 h5 (by simpa using h6) h7⟩
@@ -183,10 +183,10 @@ theorem req_pkt_cl (cfg : Cfg) {m u v : Bytes} {url : Url} (H : HDict) (body : B
     (hex : ∃ e ∈ H, isCL e = true) (hne : body ≠ []) :
     ∃ r, parse cfg (init .request) (m ++ SP :: (u ++ SP :: v) ++ CRLF ++ (renderHdrs H ++ CRLF ++ body)) = .ok r ∧
       ReqResult r m v url H (some body) false := by
-  obtain ⟨-, hmsp, hmcr⟩ := plainTok_spec hm
+  obtain ⟨hmne, hmsp, hmcr⟩ := plainTok_spec hm
   obtain ⟨-, husp, hucr⟩ := plainTok_spec hu
   obtain ⟨-, -, hvcr⟩ := plainTok_spec hv
-  have hparse := parse_request_pkt cfg H body hmsp husp (line3_noCRLF hmcr hucr hvcr) hurl hH _ rfl
+  have hparse := parse_request_pkt cfg H body hmne hmsp husp (line3_noCRLF hmcr hucr hvcr) hurl hH _ rfl
   obtain ⟨r, h1, h2, h3, h4, h5, h6, h7⟩ := finish_cl cfg .request _ _ body [] _ _ hparse
     (List.append_nil _).symm (freshLine_req cfg _ m v url) hte hcl hex hne
   exact ⟨r, h1, reqResult_of h2 h3 h4 h5 (by simpa using h6) h7⟩
@@ -197,10 +197,10 @@ theorem req_pkt_chunked (cfg : Cfg) {m u v : Bytes} {url : Url} (H : HDict) (s :
     (hte : H.any isTEChunked = true) (hcl : clValuesOK H) (hs : s.Valid) :
     ∃ r, parse cfg (init .request) (m ++ SP :: (u ++ SP :: v) ++ CRLF ++ (renderHdrs H ++ CRLF ++ s.render)) = .ok r ∧
       ReqResult r m v url H (some s.decoded) true := by
-  obtain ⟨-, hmsp, hmcr⟩ := plainTok_spec hm
+  obtain ⟨hmne, hmsp, hmcr⟩ := plainTok_spec hm
   obtain ⟨-, husp, hucr⟩ := plainTok_spec hu
   obtain ⟨-, -, hvcr⟩ := plainTok_spec hv
-  have hparse := parse_request_pkt cfg H s.render hmsp husp (line3_noCRLF hmcr hucr hvcr) hurl hH _ rfl
+  have hparse := parse_request_pkt cfg H s.render hmne hmsp husp (line3_noCRLF hmcr hucr hvcr) hurl hH _ rfl
   obtain ⟨r, h1, h2, h3, h4, h5, h6, h7⟩ := finish_chunked cfg .request _ _ s [] _ _ hparse
     (List.append_nil _).symm (freshLine_req cfg _ m v url) hte hcl hs
   exact ⟨r, h1, reqResult_of h2 h3 h4 h5 (by simpa using h6) h7⟩
